@@ -666,3 +666,108 @@ def random_analytic_units(rnd, n, maxrows=5):
             term = t
         units.append({'id': 'w%d' % i, 'env': {'DS_1': ds}, 'term': term, 'cc': True})
     return units
+
+
+# ---- validation and hierarchy (C07) -----------------------------------------------------------------
+HR_MODES = ['non_null', 'non_zero', 'partial_null', 'partial_zero', 'always_null', 'always_zero']
+
+
+def _codes(rnd):
+    return rnd.sample(['A', 'B', 'C', 'D', 'T'], rnd.choice([3, 4, 5]))
+
+
+def random_validation_units(rnd, n):
+    units = []
+    for i in range(n):
+        kind = rnd.choice(['check', 'dpcheck', 'dpcheck', 'hcheck', 'hcheck', 'hier', 'hier'])
+        if kind == 'check':
+            ids = [('Id_1', 'Integer')] + ([('Id_2', 'String')] if rnd.random() < 0.5 else [])
+            env = {'DS_1': gen.shuffled(rnd, gen.dataset(rnd, ids, [('Me_1', 'M', 'Integer')], rnd.choice([0, 1, 3, 5, 8]), keyspace=4, null_p=0.2))}
+            x = {'k': 'bin', 'op': rnd.choice(['>', '>=', '<', '=', '<>']), 'l': var('DS_1'), 'r': const(I(rnd.choice([0, 1, 2])))}
+            imb = []
+            if rnd.random() < 0.5:
+                env['DS_2'] = gen.shuffled(rnd, gen.dataset(rnd, ids, [('Me_1', 'M', 'Integer')], rnd.choice([0, 2, 5, 8]), keyspace=4, null_p=0.2))
+                imb = [rnd.choice([var('DS_2'), {'k': 'bin', 'op': '-', 'l': var('DS_1'), 'r': var('DS_2')}])]
+                if imb[0]['k'] == 'bin':
+                    x = {'k': 'bin', 'op': rnd.choice(['>', '=', '<=']), 'l': var('DS_1'), 'r': var('DS_2')}
+            term = {'k': 'check', 'x': x, 'imb': imb, 'ec': rnd.choice([S('E1'), NULL]), 'el': rnd.choice([I(2), NULL]), 'out': rnd.choice(['invalid', 'all'])}
+        elif kind == 'dpcheck':
+            ids = [('Id_1', 'Integer')] + ([('Id_2', 'String')] if rnd.random() < 0.5 else [])
+            env = {'DS_1': gen.shuffled(rnd, gen.dataset(rnd, ids, [('Me_1', 'M', 'Integer'), ('Me_2', 'M', 'Integer')], rnd.choice([0, 1, 3, 5, 8]), keyspace=4, null_p=0.2))}
+            rules = []
+            for j in range(rnd.choice([1, 2, 3, 5])):
+                def cmp_(m):
+                    return {'k': 'bin', 'op': rnd.choice(['>', '>=', '<', '=', '<>']), 'l': var(m), 'r': rnd.choice([const(I(rnd.choice([0, 1, 3]))), var('Me_2' if m == 'Me_1' else 'Me_1')])}
+                then = cmp_(rnd.choice(['Me_1', 'Me_2']))
+                if rnd.random() < 0.25:
+                    then = {'k': 'bin', 'op': rnd.choice(['and', 'or']), 'l': then, 'r': cmp_('Me_2')}
+                rules.append({'name': S('r%d' % (j + 1)), 'when': [cmp_(rnd.choice(['Me_1', 'Me_2']))] if rnd.random() < 0.5 else [], 'then': then,
+                              'ec': rnd.choice([S('E%d' % j), NULL]), 'el': rnd.choice([I(j + 1), NULL])})
+            term = {'k': 'dpcheck', 'ds': var('DS_1'), 'rs': 'dpr_%d' % i, 'vars': ['Me_1', 'Me_2'], 'rules': rules, 'out': rnd.choice(['invalid', 'all', 'all_measures'])}
+        else:
+            codes = _codes(rnd)
+            twoids = rnd.random() < 0.6
+            comps = ([gen.comp('Id_1', 'I', 'Integer')] if twoids else []) + [gen.comp('Id_2', 'I', 'String'), gen.comp('Me_1', 'M', 'Integer')]
+            rows = []
+            for k1 in ([1, 2, 3][:rnd.choice([1, 2, 3])] if twoids else [0]):
+                for c in codes:
+                    r = rnd.random()
+                    if r < 0.25:
+                        continue                           # missing code item
+                    v = NULL if r < 0.4 else I(rnd.choice([0, 0, 1, 2, 3, 5, -2]))
+                    row = {'Id_2': S(c), 'Me_1': v}
+                    if twoids:
+                        row['Id_1'] = I(k1)
+                    rows.append(row)
+            env = {'DS_1': gen.shuffled(rnd, {'comps': comps, 'rows': rows})}
+            nrules = rnd.choice([1, 2, 3, 5])
+            layered = rnd.random() < 0.8
+            rules, lefts = [], []
+            avail = list(codes)
+            for j in range(nrules):
+                cand = avail[:-1] if layered else avail
+                left = rnd.choice([c for c in cand if c not in lefts] or cand)
+                rs = [c for c in codes if c != left]
+                if layered and [c for c in codes if codes.index(c) > codes.index(left)]:
+                    rs = [c for c in codes if codes.index(c) > codes.index(left)]     # no cycles: an item only depends on later ones
+                right = [[rnd.choice(['+', '+', '-']), S(c)] for c in rnd.sample(rs, rnd.randrange(1, min(3, len(rs)) + 1))]
+                right[0][0] = '+'
+                op = '=' if kind == 'hier' or rnd.random() < 0.5 else rnd.choice(['>', '>=', '<', '<='])
+                lefts.append(left)
+                rules.append({'name': S('h%d' % (j + 1)), 'left': S(left), 'op': op, 'right': right, 'ec': rnd.choice([S('H%d' % j), NULL]), 'el': rnd.choice([I(j + 1), NULL])})
+            if kind == 'hier':
+                # one rule per computed item, no cyclic dependencies among the computed items
+                seen, rr = set(), []
+                for r_ in rules:
+                    lc = ''.join(chr(x) for x in r_['left'][1])
+                    if lc in seen:
+                        continue
+                    seen.add(lc)
+                    rr.append(r_)
+                rules = rr
+                order = hr_order(rules)
+                if order is None:
+                    continue
+                term = {'k': 'hier', 'check': False, 'ds': var('DS_1'), 'rs': 'hr_%d' % i, 'comp': 'Id_2', 'rules': rules, 'mode': rnd.choice(HR_MODES),
+                        'input': rnd.choice(['dataset', 'rule', 'rule_priority']), 'out': rnd.choice(['computed', 'all']), 'order': order}
+            else:
+                term = {'k': 'hier', 'check': True, 'ds': var('DS_1'), 'rs': 'hr_%d' % i, 'comp': 'Id_2', 'rules': rules, 'mode': rnd.choice(HR_MODES),
+                        'input': 'dataset', 'out': rnd.choice(['invalid', 'all', 'all_measures']), 'order': []}
+        units.append({'id': 'v%d' % i, 'env': env, 'term': term, 'cc': True, 'nopack': True})
+    return units
+
+
+def hr_order(rules):
+    """dependency order of the '=' rules (1-based indexes); None if cyclic"""
+    left = {''.join(chr(x) for x in r['left'][1]): j for j, r in enumerate(rules)}
+    deps = {j: {left[''.join(chr(x) for x in c[1])] for _, c in r['right'] if ''.join(chr(x) for x in c[1]) in left and left[''.join(chr(x) for x in c[1])] != j}
+            for j, r in enumerate(rules)}
+    order, done = [], set()
+    while len(order) < len(rules):
+        ready = [j for j in range(len(rules)) if j not in done and deps[j] <= done]
+        if not ready:
+            return None
+        j = ready[0]
+        order.append(j + 1)
+        done.add(j)
+    return order
